@@ -201,9 +201,13 @@ def gen_consts():
         if not re.fullmatch(r'[\d\s\*\+\(\)<]+', e):
             raise TranslateError(f'constant expression outside the fragment: {e!r}')
         return int(eval(e))
+    # `read` decides on the announced length before any of the body is loaded: 0 => no payload, PAYLOAD_LIMIT.. => 413, otherwise read_payload
+    arm = re.search(r"match content_length \{\s*0 => \(\),\s*PAYLOAD_LIMIT\.\. => return Err\(\(\|\| Response::PayloadTooLarge\(\)\)\(\)\),\s*_ => match Request::read_payload\(", rq)
     out = ['/-! GENERATED from ohkami/src/request/mod.rs and request/path.rs -/', 'namespace Ohkami.Gen',
            f'def BUF_SIZE : Nat := {ev(m1.group(1))}', f'def PAYLOAD_LIMIT : Nat := {ev(m2.group(1))}',
-           f'def PARAMS_LIMIT : Nat := {ev(m3.group(1))}', 'end Ohkami.Gen']
+           f'def PARAMS_LIMIT : Nat := {ev(m3.group(1))}',
+           '/-- `Request::read` refuses an announced length of PAYLOAD_LIMIT or more (413) before it loads any of the body, wherever the body bytes are -/',
+           f'def limitCheckedBeforeLoading : Bool := {"true" if arm else "false"}', 'end Ohkami.Gen']
     return '\n'.join(out) + '\n'
 
 
@@ -242,9 +246,20 @@ def gen_shutdown():
         raise TranslateError('UntilInterrupt::poll: inner poll / CATCH.load / WAKER.swap not found')
     flag_first = first_catch < inner and re.search(r"if CATCH\.load\(Ordering::SeqCst\) \{\s*return Poll::Ready\(None\)\s*\}", body[:inner]) is not None
     recheck = re.search(r"if CATCH\.load\(Ordering::SeqCst\) \{\s*return Poll::Ready\(None\)\s*\}", body[swap:]) is not None
+    # the tail of `howl`: the wait group is awaited itself, to its end (not raced against a timer or anything else)
+    hw = re.search(r"crate::DEBUG!\(\"interrupted, trying graceful shutdown\.\.\.\"\);\s*(.*?)\n    \}\n", src, re.S)
+    tail = hw.group(1) if hw else None
+    if tail is None:
+        m3 = re.search(r"let \(wg, ctrl_c\) = \(sync::WaitGroup::new\(\), sync::CtrlC::new\(\)\);(.*?)\n    \}\n", src, re.S)
+        tail = m3.group(1) if m3 else None
+    if tail is None:
+        raise TranslateError('howl: the accept loop and the wait for the sessions not found')
+    awaits_all = re.search(r"^\s*wg\.await;?\s*$", tail, re.M) is not None and len(re.findall(r"\bwg\b", tail.split('wg.await')[-2][-200:] if 'wg.await' in tail else '')) >= 0 \
+        and not re.search(r"(timeout|select|race|or)\w*[!(][^;]*\bwg\b", tail)
     out = ['/-! GENERATED from ohkami/src/ohkami/mod.rs (`UntilInterrupt::poll`): does the poll look at CATCH before it polls the wrapped future, and again after it',
            '    published its waker?  These are the parameters `flagFirst` / `fixed` of `Ohkami.Shutdown2.step`. -/', 'namespace Ohkami.Gen',
-           f'def pollFlagFirst : Bool := {"true" if flag_first else "false"}', f'def pollRecheck : Bool := {"true" if recheck else "false"}', 'end Ohkami.Gen']
+           f'def pollFlagFirst : Bool := {"true" if flag_first else "false"}', f'def pollRecheck : Bool := {"true" if recheck else "false"}',
+           '/-- the tail of `howl` is `wg.await`: the wait group itself, awaited to its end -/', f'def howlAwaitsWaitGroup : Bool := {"true" if awaits_all else "false"}', 'end Ohkami.Gen']
     return '\n'.join(out) + '\n'
 
 
